@@ -1407,7 +1407,7 @@ theorem step_paidInv {s s' : St} {op : Op} {o : Out} (hWI : WInv s) (hWP : WeekP
     simp only [noOut, Option.map_eq_some_iff, Prod.mk.injEq] at h
     obtain ⟨s1, h1, rfl, _⟩ := h
     simp only [setFactors, Option.bind_eq_bind, Option.bind_eq_some_iff, Option.pure_def] at h1
-    obtain ⟨_, _, _, _, W, hW, h1⟩ := h1
+    obtain ⟨_, _, _, _, _, _, W, hW, h1⟩ := h1
     have p := hP W hW
     split at h1
     · rename_i cfg hc
